@@ -37,7 +37,9 @@ Record env_typed (e : env F) : Prop := {
   et_pad : forall b ch c col row, pad_pos e b ch c = DOk (col, row) -> col < 32 /\ row < 576;
   et_wcal : forall w bl g dl, wire_cal e w = DOk (bl, g, dl) -> i16 bl;
   et_pcal : forall c r bl g dl, pad_cal e c r = DOk (bl, g, dl) -> i16 bl;
-  et_reasm : forall cs p, reasm e cs = DOk p -> forall ch wf, In (ch, wf) (p_sent p) -> Forall i16 wf
+  et_reasm : forall cs p, reasm e cs = DOk p -> forall ch wf, In (ch, wf) (p_sent p) -> Forall i16 wf;
+  (* channels_sent comes from a bit mask: no channel is listed twice (C05) *)
+  et_sent : forall cs p, reasm e cs = DOk p -> NoDup (map fst (p_sent p))
 }.
 
 (* the run's wire map sends different (board, channel) pairs to different wires (C08) *)
